@@ -87,7 +87,8 @@ package mdns
 //@   ensures [C16] A4-published: m.mdnsProvider != nil ==> m.mdnsProvider.$announces == old(m.mdnsProvider.$announces) + 1
 //@   modifies m.isAnnounced, m.mdnsProvider.$announces
 //@ func (m *MdnsManager).UnannounceMdnsEntry() entry [C19]
-//@   ensures [C19] M2-withdrawn: old(m.isAnnounced) && m.mdnsProvider != nil ==> callcount(Unannounce) == 1 && !m.isAnnounced
+//@   ensures [C19] M2-withdrawn: m.mdnsProvider != nil ==> !m.isAnnounced
+//@   ensures [C19] M2-reaches-provider: old(m.isAnnounced) && m.mdnsProvider != nil ==> callcount(Unannounce) == 1
 //@   ensures [C19] M2-idle: !old(m.isAnnounced) ==> callcount(Unannounce) == 0 && !m.isAnnounced
 //@   modifies m.isAnnounced
 // a change of the auto-accept flag while announced is published at once: the TXT record never shows a stale flag
@@ -164,8 +165,12 @@ package mdns
 //@ func (a *AvahiProvider).processRemovedService(service, cb) [C08]
 //@   requires cb != nil && a.serviceElements != nil
 //@   modifies *
-//@ func (a *AvahiProvider).processAddedService(service, cb) [C08]
+// a resolved service is handed to the manager unless its address cannot be used at all (unparseable or unspecified):
+// the manager decides which addresses to keep (an IPv6 link-local one is dropped there, the service stays visible)
+//@ func (a *AvahiProvider).processAddedService(service, cb) [C08,C17]
 //@   requires cb != nil && a.serviceElements != nil
+//@   ensures [C17] P1-reported: callcount(cb) == 1 || lastresult(ParseIP) == nil || lastresult(IsUnspecified, false)
+//@   ensures [C17] P1-error-only-unusable: result != nil ==> callcount(cb) == 0 && (lastresult(ParseIP) == nil || lastresult(IsUnspecified, false))
 //@   modifies *
 
 // ======================= the Avahi provider across daemon restarts (C19) =======================
@@ -203,7 +208,8 @@ package mdns
 //@ func (a *AvahiProvider).start(autoReconnect, cb, reconnect) [C19,C08]
 //@   requires cb != nil && @AVOPEN(a)
 //@   ensures [C19,C08] P1-open-channels: @AVOPEN(a)
-//@   ensures [C19] G1-stays-down: reconnect && old(a.manualShutdown) ==> !result && a.manualShutdown && a.autoReconnect == old(a.autoReconnect) && a.avBrowser == old(a.avBrowser) && a.listenerRunning == old(a.listenerRunning) && callcount(Setup) == 0 && spawncount() == 0
+//@   ensures [C19] G1-stays-down: reconnect && old(a.manualShutdown) ==> !result && a.manualShutdown && a.autoReconnect == old(a.autoReconnect) && a.avBrowser == old(a.avBrowser) && a.listenerRunning == old(a.listenerRunning)
+//@   ensures [C19] G1-nothing-started: reconnect && old(a.manualShutdown) ==> callcount(Setup) == 0 && spawncount() == 0
 //@   ensures [C19] G2-up: result ==> a.setupSuccessful && a.avBrowser != nil && a.listenerRunning && a.autoReconnect && !a.manualShutdown && a.addServiceChan != nil && a.removeServiceChan != nil && a.shutdownChan != nil
 //@   ensures [C19] G3-keeps-request: a.mdnsServiceData == old(a.mdnsServiceData) && a.avEntryGroup == old(a.avEntryGroup)
 //@   atcall ServiceBrowserNew [C19] G4-channels: $0 == a.addServiceChan && $1 == a.removeServiceChan && $0 != nil && $1 != nil
@@ -216,11 +222,13 @@ package mdns
 //@   modifies @avstart(a)
 //@ func (a *AvahiProvider).Announce(serviceName, port, txt) entry [C19,C08]
 //@   ensures [C19] A2-recorded: a.mdnsServiceData != nil && a.mdnsServiceData.Name == serviceName && a.mdnsServiceData.Port == port && a.mdnsServiceData.Txt == txt
-//@   ensures [C19] A3-committed: result == nil ==> a.avEntryGroup != nil && callcount(Commit) == 1
+//@   ensures [C19] A3-committed: result == nil ==> a.avEntryGroup != nil
+//@   ensures [C19] A3-once: result == nil ==> callcount(Commit) == 1
 //@   ensures [C19] A4-failed: result != nil ==> a.avEntryGroup == old(a.avEntryGroup)
 //@   modifies a.mdnsServiceData, a.avEntryGroup
 //@ func (a *AvahiProvider).Unannounce() entry [C19,C08]
-//@   ensures [C19] U1-withdrawn: a.mdnsServiceData == nil && a.avEntryGroup == nil && callcount(EntryGroupFree) == ite(old(a.avEntryGroup) != nil, 1, 0)
+//@   ensures [C19] U1-withdrawn: a.mdnsServiceData == nil && a.avEntryGroup == nil
+//@   ensures [C19] U1-freed: callcount(EntryGroupFree) == ite(old(a.avEntryGroup) != nil, 1, 0)
 //@   modifies a.mdnsServiceData, a.avEntryGroup
 //@ func (a *AvahiProvider).Shutdown() entry [C19,C08]
 //@   ensures [C19] S1-manual: a.manualShutdown
